@@ -581,23 +581,29 @@ def h_connect(params, env=None):
         from cloudsync.exceptions import CloudTokenError
         p = _lab.mk_provider(False)
         first = p.connection_id
-        other = e.choose("other_identity", 2)
-        p.disconnect()
-        if other:
-            orig = p.connect_impl
-            p.connect_impl = lambda creds: "someone-else"
-        try:
-            p.connect({"key": "val"})
-            refused = False
-        except CloudTokenError:
-            refused = True
-        if refused != bool(other):
-            return {"ok": False, "info": {"why": "connect with a different identity: refused=%s" % refused}}
-        if other and p.connected:
-            return {"ok": False, "info": {"why": "provider left connected after refusing mismatched credentials"}}
-        if not other and p.connection_id != first:
-            return {"ok": False, "info": {"why": "connection id changed between logins"}}
-        return {"ok": True, "key": str(other), "nontrivial": True}
+        orig = p.connect_impl
+        seq = []
+        # a sequence of logins, each with the pinned identity or with someone else's: every mismatching attempt is refused - also the
+        # second one in a row (a retry) - the pinned identity never changes, and the rightful owner is accepted afterwards (seed C16-F)
+        for k in range(params.get("N", 3)):
+            other = e.choose("other_identity", 2)
+            seq.append(other)
+            p.disconnect()
+            p.connect_impl = (lambda creds: "someone-else") if other else orig
+            try:
+                p.connect({"key": "val"})
+                refused = False
+            except CloudTokenError:
+                refused = True
+            if refused != bool(other):
+                return {"ok": False, "info": {"why": "connect with a different identity: refused=%s" % refused, "attempts": seq}}
+            if other and p.connected:
+                return {"ok": False, "info": {"why": "provider left connected after refusing mismatched credentials", "attempts": seq}}
+            if not other and not p.connected:
+                return {"ok": False, "info": {"why": "provider not connected after a login with the pinned identity", "attempts": seq}}
+            if p.connection_id != first:
+                return {"ok": False, "info": {"why": "pinned connection id changed by a login attempt", "attempts": seq}}
+        return {"ok": True, "key": str(seq), "nontrivial": True}
     return fn
 
 
